@@ -1438,7 +1438,7 @@ impl Formatter {
         .replace(">", "&gt;");
       format!("<pre class=\"mech-code-block\">{}</pre>",escaped_code)
     } else {
-      format!("```\n{}\n```",code)
+      format!("```\n{}```\n",code)
     }
   }
 
